@@ -1,4 +1,5 @@
 import BB.Props.C05
+import BB.Proofs.ReportCommute
 /-!
 # C08 - Detected corruption is quarantined: affected and older blocks are not served
 
@@ -99,6 +100,27 @@ theorem still_accepts (c : Cfg) (fuelGrow size : Nat) (s : St) (hc : CfgOK c) (h
     omega
   · right
     exact ⟨s', e, st.wf, f⟩
+
+/-- **Detection racing with a reservation.** The callback does not take the store lock, so it can fire while
+`findBlockWithSpace` runs. The counter is read once, before the first loop (`findBlockWithSpace_eq`); a
+detection that arrives at any later point of the reservation has the same effect as one that arrives right
+after it - for every state, size, growth policy and outcome (success, UNAVAILABLE), including what the
+reservation returns. This is what lets the model treat `Put` as atomic. -/
+theorem detection_during_reservation (c : Cfg) (fuelGrow size B : Nat) (s : St) :
+    afterSnapshot c fuelGrow size (reportCorruption s B) =
+      (afterSnapshot c fuelGrow size s).mapSt (fun s => reportCorruption s B) (fun p => (p.1, reportCorruption p.2 B)) :=
+  afterSnapshot_rep c fuelGrow size B s
+
+def exampleRace : Option (Nat × Nat × Nat × Nat × Nat) :=
+  let c : Cfg := ⟨.immutable ⟨2⟩, 4, 1, 1⟩
+  let s := C05.run c 10 (init c [] 100) [4, 4, 3]
+  match afterSnapshot c 10 4 (reportCorruption s 2), afterSnapshot c 10 4 s with
+  | .ok (i, s1), .ok (j, s2) => some (i, j, s1.toBeReleased, s2.toBeReleased, s1.released)
+  | _, _ => none
+
+/-- A test: the reservation rotates (block 0 released), returns the same block either way, and the detection
+in block 2 is kept (counter 3 instead of 1). -/
+example : exampleRace = some (2, 2, 3, 1, 1) := by decide
 
 /-- Non-vacuity / example: corruption in block 1 of a running store hides blocks 0 and 1, keeps
 block 2, fails the in-flight ticket and the next upload lands above. -/
